@@ -132,6 +132,11 @@ func (jenny Schema) GenerateSchema(context languages.Context, schema *ast.Schema
 func (jenny Schema) objectToDefinition(object ast.Object) Definition {
 	definition := jenny.formatType(object.Type)
 
+	// the default of the object itself (`Name: string | *"foo"`)
+	if object.Type.Default != nil && !object.Type.IsRef() {
+		definition.Set("default", object.Type.Default)
+	}
+
 	if comments := jenny.objectComments(object); len(comments) != 0 {
 		definition.Set("description", comments)
 	}
